@@ -371,4 +371,5 @@ def tokenize_string(text, prev=None):
             CC.BracketEnd,
             CC.Comment):
         result += next(text)
-    return result
+    if result:
+        return result
